@@ -141,6 +141,63 @@ def make_inputs_ugrid(oid, dtype, fill_case, si):
                       bounds="2 faces <= 4 corners, nodes < 6, lon in [0,360]")
 
 
+def make_inputs_internal(oid, ctor):
+    """a dataset already in the internal (UGRID-named) layout handed to Grid.from_dataset(ds, source_grid_spec=...) / Grid(ds, spec):
+    neither construction nor later derivation / normalisation may change the caller's dataset"""
+    def setup(ctx):
+        ctx.const("ctor", ctor)
+        lon = _reals(ctx, "lon", N_NODE, 0, 360)
+        lat = _reals(ctx, "lat", N_NODE, -90, 90)
+        return lon, lat
+
+    def mkds(lon, lat, DA, DS, arr_i, arr_f):
+        ds = DS()
+        ds["node_lon"] = DA(arr_f(lon), dims=["n_node"], attrs={"units": "degrees_east"})
+        ds["node_lat"] = DA(arr_f(lat), dims=["n_node"], attrs={"units": "degrees_north"})
+        ds["face_node_connectivity"] = DA(arr_i(ROWS), dims=["n_face", "n_max_face_nodes"], attrs=dict(C.FN_ATTRS))
+        ds.attrs["title"] = "source"
+        return ds
+
+    def build(Grid, ds):
+        return Grid.from_dataset(ds, source_grid_spec="UGRID") if ctor == "from_dataset_spec" else Grid(ds, "UGRID")
+
+    def run(ctx, inp):
+        lon, lat = inp
+        old = sc.NL_UF[0]
+        sc.NL_UF[0] = True
+        try:
+            ds = mkds(lon, lat, symxr.DataArray, symxr.Dataset, lambda rows: C.sarr_int(rows), lambda v: C.sarr_1d(v, symnp.float64))
+            before = {k: (ds[k].data.flat_list(), dict(ds[k].attrs)) for k in list(ds._vars)}
+            names_before, attrs_before = sorted(ds._vars), dict(ds.attrs)
+            g = build(world().get("uxarray.grid.grid", "Grid"), ds)
+            g.node_lon, g.edge_node_connectivity, g.n_nodes_per_face, g.node_x, g.face_lon
+            ctx.prove("input dataset: variable set and global attributes unchanged (derived variables do not appear in it)",
+                      sorted(ds._vars) == names_before and dict(ds.attrs) == attrs_before, note=f"{sorted(ds._vars)}")
+            for k, (vals, attrs) in before.items():
+                if k in ds._vars:
+                    ctx.prove(f"input dataset variable '{k}': values unchanged", _same(ds[k].data.flat_list(), vals) if len(ds[k].data.flat_list()) == len(vals) else False)
+                    ctx.prove(f"input dataset variable '{k}': attributes unchanged", dict(ds[k].attrs) == attrs, note=f"{dict(ds[k].attrs)} vs {attrs}")
+        finally:
+            sc.NL_UF[0] = old
+
+    def replay(v):
+        import xarray as xr
+        import uxarray as ux
+        ds = mkds(v["lon"], v["lat"], xr.DataArray, xr.Dataset, lambda r: np.array(r, dtype=np.intp), lambda x: np.array(x, dtype=float))
+        keep = ds.copy(deep=True)
+        g = build(ux.Grid, ds)
+        g.node_lon, g.edge_node_connectivity, g.n_nodes_per_face, g.node_x, g.face_lon
+        if not ds.identical(keep):
+            diffs = [k for k in keep.variables if not ds[k].identical(keep[k])] if set(ds.variables) == set(keep.variables) else f"variable set is now {sorted(ds.variables)}"
+            return (f"{'Grid.from_dataset(ds, source_grid_spec=...)' if ctor == 'from_dataset_spec' else 'Grid(ds, spec)'} followed by reading derived quantities modified the "
+                    f"caller's dataset: {diffs}; node_lon {np.asarray(ds['node_lon'].values).tolist()} (was {np.asarray(keep['node_lon'].values).tolist()})")
+        return None
+
+    return Obligation(oid, f"{ctor}: a dataset in the internal layout is left unchanged by construction and by later derivation", setup, run, replay, exact=False,
+                      functions=["Grid.from_dataset", "Grid.__init__", "coordinates._set_desired_longitude_range", "Grid.edge_node_connectivity", "Grid.node_x", "Grid.face_lon"],
+                      stubs=["trig / products uninterpreted (only identity of values matters)"], bounds="2 faces over 5 nodes, lon in [0,360] (wrap branch), lat symbolic")
+
+
 # ------------------------------------------------------------------ copy()
 def _first(x):
     return x[0] if isinstance(x, tuple) else x
@@ -354,12 +411,107 @@ def make_export(oid, edit, history):
                       functions=["Grid.to_xarray", "_ugrid._encode_ugrid"], bounds="2 faces over 5 nodes; edits: in-place value, in-place connectivity, attribute, variable deletion")
 
 
+def make_export_fmt(oid, fmt, history):
+    """to_xarray(<fmt>) followed by an in-place overwrite of EVERY array of the returned dataset (and an attribute edit):
+    the Grid must report what it reported before"""
+    def setup(ctx):
+        ctx.const("fmt", fmt); ctx.const("history", history)
+        lon = _reals(ctx, "lon", N_NODE, -180, 180)
+        lat = _reals(ctx, "lat", N_NODE, -90, 90)
+        area = _reals(ctx, "area", N_FACE, sc.lift(1e-9), 13)
+        new = _reals(ctx, "new", 1, -180, 180)
+        return lon, lat, area, new
+
+    OBS = ("node_lon", "node_lat", "face_node_connectivity", "face_areas", "node_x", "face_lon", "edge_node_connectivity")
+
+    def observe(g):
+        out = {}
+        for nm in OBS:
+            if nm in g._ds:
+                out[nm] = ([_zr(x) for x in g._ds[nm].values.flat_list()], dict(g._ds[nm].attrs))
+        return out, sorted(g._ds._vars), dict(g._ds.attrs)
+
+    def run(ctx, inp):
+        lon, lat, area, new = inp
+        old = sc.NL_UF[0]
+        sc.NL_UF[0] = True
+        try:
+            g = C.clone_grid_from({"node_lon": (["n_node"], lon), "node_lat": (["n_node"], lat), "face_node_connectivity": (["n_face", "n_max_face_nodes"], ROWS, C.FN_ATTRS)})
+            g._ds["face_areas"] = symxr.DataArray(C.sarr_1d(area, symnp.float64), dims=["n_face"])      # quadrature is C05's subject
+            if history == "derived":
+                g.edge_node_connectivity, g.node_x, g.face_lon
+            before = observe(g)
+            out = g.to_xarray(fmt)
+            n_written = 0
+            for name in list(out._vars):
+                arr = out[name].values
+                if isinstance(arr, symnp.SArr) and all(d > 0 for d in arr.shape_cap):
+                    flat_idx = (0,) * len(arr.shape_cap)
+                    val = 3 if (arr.dtype.kind in "iub") else mk(new[0])
+                    if flat_idx:
+                        arr[flat_idx] = val
+                        n_written += 1
+                out[name].attrs["edited_by_caller"] = 1
+            out.attrs["edited_by_caller"] = 1
+            ctx.prove("harness: the export holds arrays to edit", n_written >= 3)
+            after = observe(g)
+            cl = [after[1] == before[1], after[2] == before[2], sorted(after[0]) == sorted(before[0])]
+            for nm in before[0]:
+                if nm in after[0]:
+                    cl += [_same(after[0][nm][0], before[0][nm][0]), after[0][nm][1] == before[0][nm][1], len(after[0][nm][0]) == len(before[0][nm][0])]
+            ctx.prove(f"overwriting every array and attribute dictionary of the dataset returned by to_xarray('{fmt}') does not change what the Grid reports "
+                      "(coordinates, connectivity, face areas, derived variables, attributes)", sc.and_(*cl))
+        finally:
+            sc.NL_UF[0] = old
+
+    def replay(v):
+        import xarray as xr
+        lon, lat = [float(x) for x in v["lon"]], [float(x) for x in v["lat"]]
+        for use_model in (True, False):
+            lo, la = (lon, lat) if use_model else C.default_lonlat(N_NODE)
+            g = C.real_grid(ROWS, lo, la)
+            g._ds["face_areas"] = xr.DataArray(np.array([float(x) for x in v["area"]]), dims=["n_face"])
+            if history == "derived":
+                g.edge_node_connectivity, g.node_x, g.face_lon
+            names = [nm for nm in ("node_lon", "node_lat", "face_node_connectivity", "face_areas", "node_x", "face_lon", "edge_node_connectivity") if nm in g._ds]
+            before = {nm: (np.array(g._ds[nm].values, copy=True), dict(g._ds[nm].attrs)) for nm in names}
+            bvars, battrs = sorted(g._ds.variables), dict(g._ds.attrs)
+            try:
+                out = g.to_xarray(fmt)
+            except Exception as e:
+                if use_model:
+                    continue
+                return f"to_xarray('{fmt}') raised {type(e).__name__}: {str(e)[:120]}"
+            for name in list(out.variables):
+                arr = out[name].values
+                if isinstance(arr, np.ndarray) and arr.size and arr.flags.writeable:
+                    arr[(0,) * arr.ndim] = 3 if arr.dtype.kind in "iub" else float(v["new"][0])
+                out[name].attrs["edited_by_caller"] = 1
+            out.attrs["edited_by_caller"] = 1
+            if sorted(g._ds.variables) != bvars or dict(g._ds.attrs) != battrs:
+                return f"after editing the dataset returned by to_xarray('{fmt}') the grid's variables/attributes changed: {sorted(g._ds.variables)} {dict(g._ds.attrs)}"
+            for nm in names:
+                now = np.asarray(g._ds[nm].values)
+                if now.shape != before[nm][0].shape or not np.array_equal(now, before[nm][0], equal_nan=True) or dict(g._ds[nm].attrs) != before[nm][1]:
+                    return (f"the caller overwrote element 0 of every array of the dataset returned by to_xarray('{fmt}') (history {history}): the grid now reports "
+                            f"{nm} = {now.tolist()} (was {before[nm][0].tolist()}), attrs {dict(g._ds[nm].attrs)}")
+        return None
+
+    return Obligation(oid, f"to_xarray('{fmt}') result overwritten by the caller (history {history})", setup, run, replay, exact=False,
+                      functions=["Grid.to_xarray", "_scrip._encode_scrip", "_scrip.grid_center_lat_lon", "_exodus._encode_exodus", "_ugrid._encode_ugrid"],
+                      stubs=["face_areas supplied as arbitrary positive reals (C05)", "trig / products uninterpreted (only identity of values matters)"],
+                      bounds="2 faces over 5 nodes, all positions and areas symbolic; edit = element 0 of every exported array + an attribute on every exported variable and on the dataset",
+                      timeout_s=600, query_timeout_s=200)
+
+
 def obligations(tier):
     obs = [make_inputs_topo(f"C19.inputs.topo.{c}", c) for c in ("none", "minus1", "std")]
     obs += [make_inputs_ugrid("C19.inputs.ugrid.int64.std.si1", "int64", "std", 1), make_inputs_ugrid("C19.inputs.ugrid.int64.minus1.si0", "int64", "minus1", 0),
             make_inputs_ugrid("C19.inputs.ugrid.int32.minus1.si1", "int32", "minus1", 1)]
+    obs += [make_inputs_internal("C19.inputs.internal.from_dataset_spec", "from_dataset_spec"), make_inputs_internal("C19.inputs.internal.init", "init")]
     obs += [make_copy(f"C19.copy.{m.replace('+', '_')}.{s}", m, s) for m in ("setter", "normalize", "face_centers", "lazy+setter") for s in ("orig", "copy")]
     obs += [make_copy_export("C19.copy.export.line.orig", "orig", "line"), make_copy_export("C19.copy.export.poly.copy", "copy", "poly")]
     obs += [make_export(f"C19.export.{e}.{h}", e, h) for e in ("values_inplace", "drop_var", "attrs", "conn_inplace") for h in ("fresh", "with_topology_var")]
     obs += [make_export("C19.export.values_inplace.edges_first", "values_inplace", "edges_first")]
+    obs += [make_export_fmt(f"C19.export.{f}.all_arrays.{h}", f, h) for f in ("ugrid", "scrip", "exodus") for h in ("fresh", "derived")]
     return [o for o in obs if tier in o.tiers]
